@@ -162,17 +162,16 @@ def algebra(case, ctx):
             ops = []
 
         def ev(what, fn, need=None):
-            """own output of this node.  A gradient-type output that raises is the business of theta_grad /
-            input_grad when the node is a leaf or an operand already lacks it; it is booked here only when
-            every operand delivered it, i.e. when the composition code itself is what fails."""
+            """own output of this node.  An output that cannot be computed (exception) is the business of gram /
+            theta_grad / input_grad, which evaluate every node as well; here it only switches off the comparisons
+            that need it, so that this sub-check reports mismatches of the algebra and nothing twice."""
             nonlocal k
             try:
                 r = G.guard(ctx, _sig(what, sub), fn, expected=(NotImplementedError,))
             except Violation:
                 # a Subset*/SpinSym* object stays locked when its base raises: never reuse it
                 k = G.build(sub)
-                operands_fine = bool(ops) and all(out[id(o)].get(need or what) is not None for o in ops)
-                if what in ("call", "call_xy") or operands_fine:
+                if what in ("call", "call_xy"):
                     raise
                 ctx.event("unavailable:%s:%s" % (what, fam))
                 return None
@@ -466,7 +465,7 @@ def theta_grad(case, ctx):
     if n_free(spec) > 0:
         _nontrivial(ctx, case, spec, X)
     for sub, Xs, _y in G.walk(spec, X, None):
-        fam, cf = G.family(sub), G.cfg(sub)
+        fam, cf = G.family(sub), G.cfg(sub, theta=True)
         k = G.build(sub)
         has_antisym = any(s["t"] == "AntisymRBF" for s in G.all_nodes(sub))
         r = G.guard(ctx, ("eval_gradient", fam, cf), lambda: k(Xs, eval_gradient=True), expected=(NotImplementedError,))
@@ -482,12 +481,12 @@ def theta_grad(case, ctx):
         _finite_or_skip(Gm, sub)
         K0 = k(Xs)
         ctx.close(K, K0, ("value_with_gradient", fam, cf), rtol=1e-13, scale=max(float(np.max(np.abs(K0))), 1e-300))
-        theta = G.guard(ctx, ("theta", fam, cf), lambda: np.array(k.theta, dtype=float))
+        theta = G.guard(ctx, ("theta", fam, cf), lambda: np.array(k.theta, dtype=float), always=True)
         nfree = n_free(sub)
         ctx.check(len(theta) == nfree, ("theta_length", fam, cf), got=len(theta), want=nfree, cls=G.cls_name(sub))
         ctx.check(Gm.shape == (len(Xs), len(Xs), len(theta)), ("gradient_shape", fam, cf), got=Gm.shape,
                   want=(len(Xs), len(Xs), len(theta)), cls=G.cls_name(sub))
-        bounds = np.asarray(k.bounds, dtype=float).reshape(-1, 2)
+        bounds = np.asarray(G.guard(ctx, ("bounds", fam, cf), lambda: k.bounds, always=True), dtype=float).reshape(-1, 2)
         ctx.check(bounds.shape[0] == len(theta), ("bounds_shape", fam, cf), got=bounds.shape)
         if len(theta):
             ctx.check(np.all(theta >= bounds[:, 0] - 1e-9) and np.all(theta <= bounds[:, 1] + 1e-9), ("theta_within_bounds", fam, cf))
@@ -524,31 +523,46 @@ def input_grad(case, ctx):
     _events(ctx, spec)
     _nontrivial(ctx, case, spec, X)
     for sub, Xs, Ys in G.walk(spec, X, Y):
-        fam, cf = G.family(sub), G.cfg(sub)
-        k = G.build(sub)
-        KY = _matrix(ctx, G.guard(ctx, ("call", fam, cf), lambda: k(Xs, Ys)), (len(Xs), len(Ys)), sub)
-        _finite_or_skip(KY, sub)
-        kk, dk = G.guard(ctx, ("k_and_deriv", fam, cf), lambda: k.k_and_deriv(Xs, Ys))
-        kk, dk = np.asarray(kk), np.asarray(dk)
-        _finite_or_skip(dk, sub)
-        ctx.close(kk, KY, ("value", fam, cf), rtol=1e-13, scale=max(float(np.max(np.abs(KY))), 1e-300), cls=G.cls_name(sub))
-        want_shape = (len(Xs), len(Ys), Xs.shape[1])
-        ctx.check(np.shape(dk) == want_shape, ("gradient_shape", fam, cf), got=np.shape(dk), want=want_shape, cls=G.cls_name(sub))
-        amax = float(np.max(np.abs(dk))) if dk.size else 0.0
-        for fcol in range(Xs.shape[1]):
-            h = 1e-4 * (1.0 + np.abs(Xs[:, fcol]))[:, None]
+        if sub["t"] in ("PartialRBF", "PartialARBF"):
+            # legacy wrappers whose k_and_deriv does not compute the wrapper's own kernel at all: one class each,
+            # whichever of the relations below shows it (wrong value, wrong width, exception, wrong gradient)
+            try:
+                _input_grad_node(ctx, sub, Xs, Ys)
+            except Violation as v:
+                raise Violation((ctx.sc.name, "k_and_deriv_inconsistent_with_call", G.family(sub), "any"),
+                                dict(v.detail, first_symptom=list(v.sig)))
+        else:
+            _input_grad_node(ctx, sub, Xs, Ys)
 
-            def f(step, fcol=fcol):
-                Xp = Xs.copy()
-                Xp[:, fcol] = Xs[:, fcol] + np.broadcast_to(step, (len(Xs), 1))[:, 0]
-                return k(Xp, Ys)
 
-            fd_check_vec(ctx, f, dk[:, :, fcol], ("fd", fam, cf), h, rtol=1e-6, atol=1e-13 * amax + 1e-200,
-                         feature=fcol, cls=G.cls_name(sub))
-        k0, dk0 = G.guard(ctx, ("k_and_deriv_y_none", fam, cf), lambda: k.k_and_deriv(Xs))
+def _input_grad_node(ctx, sub, Xs, Ys):
+    fam, cf = G.family(sub), G.cfg(sub)
+    k = G.build(sub)
+    KY = _matrix(ctx, G.guard(ctx, ("call", fam, cf), lambda: k(Xs, Ys)), (len(Xs), len(Ys)), sub)
+    _finite_or_skip(KY, sub)
+    kk, dk = G.guard(ctx, ("k_and_deriv", fam, cf), lambda: k.k_and_deriv(Xs, Ys))
+    kk, dk = np.asarray(kk), np.asarray(dk)
+    _finite_or_skip(dk, sub)
+    ctx.close(kk, KY, ("value", fam, cf), rtol=1e-13, scale=max(float(np.max(np.abs(KY))), 1e-300), cls=G.cls_name(sub))
+    want_shape = (len(Xs), len(Ys), Xs.shape[1])
+    ctx.check(np.shape(dk) == want_shape, ("gradient_shape", fam, cf), got=np.shape(dk), want=want_shape, cls=G.cls_name(sub))
+    amax = float(np.max(np.abs(dk))) if dk.size else 0.0
+    for fcol in range(Xs.shape[1]):
+        h = 1e-4 * (1.0 + np.abs(Xs[:, fcol]))[:, None]
+
+        def f(step, fcol=fcol):
+            Xp = Xs.copy()
+            Xp[:, fcol] = Xs[:, fcol] + np.broadcast_to(step, (len(Xs), 1))[:, 0]
+            return k(Xp, Ys)
+
+        fd_check_vec(ctx, f, dk[:, :, fcol], ("fd", fam, cf), h, rtol=1e-6, atol=1e-13 * amax + 1e-200,
+                     feature=fcol, cls=G.cls_name(sub))
+    k0, dk0 = G.guard(ctx, ("k_and_deriv_y_none", fam, cf), lambda: k.k_and_deriv(Xs))
+    ctx.close(k0, k(Xs), ("y_none_value", fam, cf), rtol=1e-13, scale=max(float(np.max(np.abs(k0))), 1e-300))
+    if not any(s_["t"] == "White" for s_ in G.all_nodes(sub)):
+        # (a white-noise factor is delta_ij for Y=None and zero for an explicit Y: the two calls differ by design)
         k1, dk1 = G.guard(ctx, ("k_and_deriv", fam, cf), lambda: k.k_and_deriv(Xs, Xs.copy()))
         ctx.close(dk0, dk1, ("y_none_convention", fam, cf), rtol=1e-13, scale=max(float(np.max(np.abs(dk1))), 1e-300))
-        ctx.close(k0, k(Xs), ("y_none_value", fam, cf), rtol=1e-13, scale=max(float(np.max(np.abs(k1))), 1e-300))
 
 
 # =================================================================================================
@@ -574,7 +588,7 @@ def sklearn_api(case, ctx):
     rng = rng_from(len(case["X"]) * 7919 + case["nf"])
     for sub, Xs, _y in G.walk(spec, X, None):
         # the parameter protocol of Subset*/SpinSym* lives in one place (_IndexMixin)
-        fam = {"Subset": "Subset*", "SpinSym": "SpinSym*"}.get(sub["t"], G.family(sub))
+        fam = {"Subset": "IndexMixin(Subset*/SpinSym*)", "SpinSym": "IndexMixin(Subset*/SpinSym*)"}.get(sub["t"], G.family(sub))
         cf = "std"
         k = G.build(sub)
         K0 = np.asarray(G.guard(ctx, ("call", fam, cf), lambda: k(Xs), always=True))
@@ -636,7 +650,8 @@ def _pol_k(k, XA, XB, CA, CB):
                "control-point source; oracles: X1ctrl and get_k against the documented formulas with my own feature "
                "transform (SEP per spin, NPOL spin-averaged features, POL k_aa k_bb + k_ab k_ba), get_kctrl symmetric/PSD and "
                "equal to that formula, get_k_and_deriv value == get_k and derivative vs finite differences of get_k in every "
-               "raw feature of every spin; POL with nspin=1 must equal the spin-a block of the spin-duplicated input; "
+               "raw feature of every spin (for unpolarised input in POL mode too: the derivative of get_k with respect to the one "
+               "spin channel given, the convention MappedDFTKernel uses); "
                "non-trivial = composite or non-sklearn kernel, nsamp*nctrl >= 2",
           tolerances={"fd_rtol": 1e-6, "value_rtol": 1e-12})
 def dft_kernel(case, ctx):
@@ -710,17 +725,11 @@ def dft_kernel(case, ctx):
         k2, dkd = G.guard(ctx, ("get_k_and_deriv", mode, "std"), lambda: dk.get_k_and_deriv(X0T.copy()))
     except Violation as v:
         if mode == "POL":  # one structural class for the polarised product rule, whatever way it breaks
-            raise Violation((ctx.sc.name, "get_k_and_deriv_raises", mode, "nspin%d" % nspin), v.detail)
+            raise Violation((ctx.sc.name, "pol_get_k_and_deriv", mode, "raises"), dict(v.detail, nspin=nspin))
         raise
     ctx.close(k2, kk, ("deriv_value", mode, "nspin%d" % nspin), rtol=1e-13, scale=ksc)
-    ctx.check(dkd.shape == (nctrl, nspin, n0, ns), ("deriv_shape", mode), got=dkd.shape)
-    if mode == "POL" and nspin == 1:
-        # documented convention of the polarised evaluators: the restricted derivative is the spin-a block
-        X2 = np.concatenate([X0T, X0T], axis=0)
-        k3, dk3 = dk.get_k_and_deriv(X2)
-        ctx.close(k2, k3, ("pol_restricted_value", mode), rtol=1e-13, scale=ksc)
-        ctx.close(dkd[:, 0], dk3[:, 0], ("pol_restricted_deriv", mode), rtol=1e-12, scale=max(float(np.max(np.abs(dk3))), 1e-300))
-        return
+    ctx.check(dkd.shape == (nctrl, nspin, n0, ns), ("pol_get_k_and_deriv" if mode == "POL" else "deriv_shape", mode, "shape"),
+              got=dkd.shape, want=(nctrl, nspin, n0, ns))
     amax = float(np.max(np.abs(dkd)))
     for s in range(nspin):
         for i in range(n0):
@@ -732,8 +741,9 @@ def dft_kernel(case, ctx):
                 r = dk.get_k(xp)
                 return r[:, s, :] if mode == "SEP" else r
 
-            fd_check_vec(ctx, f, dkd[:, s, i, :], ("deriv_fd", mode, "nspin%d" % nspin), h[None, :], rtol=1e-6,
-                         atol=1e-13 * amax + 1e-200, spin=s, raw=i)
+            sig = ("pol_get_k_and_deriv", mode, "wrong_derivative") if mode == "POL" else ("deriv_fd", mode, "nspin%d" % nspin)
+            fd_check_vec(ctx, f, dkd[:, s, i, :], sig, h[None, :], rtol=1e-6, atol=1e-13 * amax + 1e-200, spin=s, raw=i,
+                         nspin=nspin)
             if mode == "SEP" and nspin == 2:
                 # the other spin channel's kernel must not depend on this spin's features
                 xp = X0T.copy()
